@@ -503,6 +503,67 @@ def run_det_case(c, timeout_s=120.0):
                     c.impl = "differ file:%s" % nm
                     return
             c.impl = "same rc=0 out=%d files=%d" % (len(whole[1]), len(whole[3]))
+        elif c.op == "detdistmulti":
+            # detdistmulti <rows;;rows;;…> <model> <rmgaps> <alpha num/den|0> <threads>: `goalign compute distance -p` on
+            # an input holding several alignments (one model object serves them all in the command) against the LIBRARY
+            # call on each alignment alone with a fresh model: the matrices printed one after the other must be those
+            groups, model, rmgaps, alpha, threads = [str(x) for x in c.args[:5]]
+            gamma = "0" if alpha == "0" else "1"
+            libs = []
+            for rows in groups.split(";;"):
+                line = "\t".join(["distmatrix", model, rmgaps, "0", "0", gamma, alpha if alpha != "0" else "1", "_", "-1,-1,-1,-1", rows])
+                libs.append((rows, _worker_run(os.path.join(BUILD, "harness"), [(0, line)], 20.0).get(0, "?")))
+            argv = ["compute", "distance", "-m", model, "-p", "-t", threads]
+            if rmgaps == "1":
+                argv.append("-r")
+            if alpha != "0":
+                num, den = (alpha.split("/") + ["1"])[:2]
+                argv += ["--alpha", repr(float(num) / float(den))]
+            phy = ""
+            for rows in groups.split(";;"):
+                rr = [r.split(":", 1) for r in rows.split(",")]
+                phy += " %d %d\n" % (len(rr), len(rr[0][1])) + "".join("%s  %s\n" % (a, b) for a, b in rr)
+            cli = exec_goalign(argv, phy.encode(), {}, timeout_s)
+            if any(not l.startswith("ok ") for _, l in libs):
+                c.impl = ("same rc=%s out=0 files=0" % cli[0]) if cli[0] != 0 else "differ library=err command-line=rc0"
+                return
+            if cli[0] != 0:
+                c.impl = "differ library=ok command-line=rc%s" % cli[0]
+                return
+            import struct as _st
+            lines = [l for l in cli[1].decode("utf-8", "replace").split("\n") if l != ""]
+            pos = 0
+            for k, (rows, lib) in enumerate(libs):
+                mat = [[_st.unpack(">d", bytes.fromhex(x))[0] for x in r.split(",")] for r in lib[3:].split(";")]
+                names = [r.split(":", 1)[0] for r in rows.split(",")]
+                blk = lines[pos:pos + len(mat) + 1]
+                pos += len(mat) + 1
+                if len(blk) != len(mat) + 1 or blk[0].strip() != str(len(mat)):
+                    c.impl = "differ shape of matrix %d" % k
+                    return
+                for i, l in enumerate(blk[1:]):
+                    f = l.split("\t")
+                    if f[0] != names[i] or len(f) != len(mat) + 1:
+                        c.impl = "differ matrix %d row %d" % (k, i)
+                        return
+                    for j, txt in enumerate(f[1:]):
+                        x = mat[i][j]
+                        if x != x:
+                            ok = txt == "NaN"
+                        elif x in (float("inf"), float("-inf")):
+                            ok = txt in ("+Inf", "-Inf", "Inf") and (txt.startswith("-") == (x < 0))
+                        else:
+                            try:
+                                ok = abs(float(txt) - x) <= 5.1e-13 * max(1.0, abs(x))
+                            except ValueError:
+                                ok = False
+                        if not ok:
+                            c.impl = "differ matrix %d entry %d,%d library=%r command-line=%s" % (k, i, j, x, txt)
+                            return
+            if pos != len(lines):
+                c.impl = "differ trailing output"
+                return
+            c.impl = "same rc=0 out=%d files=0" % len(cli[1])
         elif c.op == "detdist":
             # detdist <rows name:seq,...> <model> <rmgaps> <gapmode> <rmamb> <alpha num/den|0> <r1|_> <r2|_>:
             # `goalign compute distance` against the LIBRARY call with the same options (dna.DistMatrix through the
@@ -770,7 +831,10 @@ def shrink_case(mod, binpath, case, still_bad, max_rounds=60, budget_s=45.0):
     for _ in range(max_rounds):
         if time.time() - t0 > budget_s:
             break
-        cands = list(shrinker(cur))[:300]
+        try:
+            cands = list(shrinker(cur))[:300]
+        except Exception:       # noqa: a shrinker that does not know the op must not take the check down
+            cands = []
         if not cands:
             break
         nxt = None
